@@ -165,7 +165,16 @@ func parseProgressiveMp4(w io.Writer, f *mp4.File, maxNrSamples int, codec strin
 
 	var avcSPS *avc.SPS
 	var err error
+	if videoTrak.Mdia.Minf == nil || videoTrak.Mdia.Minf.Stbl == nil {
+		return fmt.Errorf("no stbl box in video track")
+	}
 	stbl := videoTrak.Mdia.Minf.Stbl
+	if stbl.Stsd == nil || stbl.Stsz == nil || stbl.Stsc == nil || stbl.Stts == nil {
+		return fmt.Errorf("stsd, stsz, stsc or stts box missing in video track")
+	}
+	if f.Mdat == nil {
+		return fmt.Errorf("no mdat box found")
+	}
 	if stbl.Stsd.AvcX != nil {
 		codec = "avc"
 		if stbl.Stsd.AvcX.AvcC != nil && len(stbl.Stsd.AvcX.AvcC.SPSnalus) > 0 { // avc3 may have the SPS in-band only
@@ -253,7 +262,13 @@ func parseProgressiveMp4(w io.Writer, f *mp4.File, maxNrSamples int, codec strin
 }
 
 func findFirstVideoTrak(moov *mp4.MoovBox) (*mp4.TrakBox, bool) {
+	if moov == nil {
+		return nil, false
+	}
 	for _, inTrak := range moov.Traks {
+		if inTrak.Mdia == nil || inTrak.Mdia.Hdlr == nil {
+			continue
+		}
 		hdlrType := inTrak.Mdia.Hdlr.HandlerType
 		if hdlrType != "vide" {
 			continue
@@ -289,6 +304,9 @@ func parseFragmentedMp4(w io.Writer, f *mp4.File, maxNrSamples int, codec string
 		if !ok {
 			return fmt.Errorf("no video track found")
 		}
+		if videoTrak.Mdia.Minf == nil || videoTrak.Mdia.Minf.Stbl == nil || videoTrak.Mdia.Minf.Stbl.Stsd == nil {
+			return fmt.Errorf("no stsd box in video track")
+		}
 		stbl := videoTrak.Mdia.Minf.Stbl
 		if stbl.Stsd.AvcX != nil {
 			codec = "avc"
@@ -301,7 +319,9 @@ func parseFragmentedMp4(w io.Writer, f *mp4.File, maxNrSamples int, codec string
 		} else if stbl.Stsd.HvcX != nil {
 			codec = "hevc"
 		}
-		trex, _ = moov.Mvex.GetTrex(videoTrak.Tkhd.TrackID)
+		if moov.Mvex != nil && videoTrak.Tkhd != nil { // without trex, the first traf and the tfhd/trun values are used
+			trex, _ = moov.Mvex.GetTrex(videoTrak.Tkhd.TrackID)
+		}
 	}
 	iSamples := make([]mp4.FullSample, 0)
 	for _, iSeg := range f.Segments {
